@@ -18,6 +18,7 @@ Terms (nested tuples):
   ("discr", x) ("binop", op, a, b) ("unop", op, a) ("cast", x)
   ("ts", (tokens..)) ("alt", ((guards, term)..)) ("opt", cond, payload) ("then", cond, payload)
   ("itermap", src, body) ("some", x) ("item", x) ("unknown", why) ("cycle", l, frame) ("undef", l)
+  ("call", STRBUF, (init, appended..), None, key)   a String appended to in place (QuoteEval.strbufs[key] has the append sites)
 Tokens:
   ("id", s) ("p", s) ("lit", s) ("grp", delim, (tokens..)) ("hole", term, impl) ("rep", (tokens..))
   ("cond", guards, (tokens..)) ("?", callee)
@@ -50,6 +51,9 @@ RX_NEXT = re.compile(r"iter::Iterator::next$")
 RX_VECNEW = re.compile(r"vec::Vec::<T>::(new|with_capacity)$")
 RX_VECPUSH = re.compile(r"vec::Vec::<T, A>::push$")
 RX_QITER = re.compile(r"RepAsIteratorExt::quote_into_iter$")
+RX_STRING_TY = re.compile(r"^(std|alloc)::string::String$")
+RX_STRPUSH = re.compile(r"string::String::(push_str|push)$")
+STRBUF = "#String::append"   # pseudo-callee of the term standing for a String that is appended to in place
 # calls that hand on the very same sequence of items / the same value (used only to look through
 # iterator plumbing when naming the element of a repetition)
 ITER_PLUMB = re.compile(r"(slice::<impl \[T\]>::iter|iter::IntoIterator::into_iter|iter::Iterator::collect|ops::Deref::deref|"
@@ -452,6 +456,7 @@ class QuoteEval:
         self._rpo = {}
         self.inlined = []       # (caller id, callee id)
         self.loops = {}         # (local, frame id) -> term of a loop-carried local (binds the ("cycle", local, frame id) inside it)
+        self.strbufs = {}       # (local, frame id) -> record of a String appended to in place (see ev_strbuf)
 
     # ---- per-function caches
     def rpo(self, fn):
@@ -644,6 +649,8 @@ class QuoteEval:
             return t[3][i]
         if k in ("tuple", "array") and i < len(t[1]):
             return t[1][i]
+        if k == "closure" and i < len(t[2]):
+            return t[2][i]      # a capture read off the closure value itself (the body of a spliced closure does that)
         if k == "as":
             inner = t[1]
             tk = try_kind(inner)
@@ -705,6 +712,10 @@ class QuoteEval:
             return self.ev_builder(frame, l, whole[0][0])
         if len(ds) == 1 and whole and whole[0][1] == "call" and RX_VECNEW.search(whole[0][2].get("callee") or ""):
             v = self.ev_vec(frame, l, whole[0])
+            if v is not None:
+                return v
+        if len(ds) == 1 and whole and RX_STRING_TY.match(fn.local_ty(l)):
+            v = self.ev_strbuf(frame, l, whole[0])
             if v is not None:
                 return v
         if len(ds) == 1 and whole:
@@ -769,6 +780,39 @@ class QuoteEval:
         if extra:
             body = ("alt", ((extra, body), ((), ("agg", "std::option::Option", "None", ()))))
         return ("itermap", src, body)
+
+    def ev_strbuf(self, frame, l, d):
+        """A String local that is appended to in place (`s.push_str(x)`, `s.push(c)`) after its one initialisation:
+        ("call", STRBUF, (initial value, appended value ...), None, key) with the appended values in control-flow order;
+        self.strbufs[key] records the frame and, per append, its block and whether it lies in a loop (the callers decide
+        under which conditions / how often each append happens).  None: the local is never borrowed mutably (plain value);
+        ("unknown", ..): it is mutated by something that is not an append."""
+        fn = frame.fn
+        reach = fn.reachable(0)
+        if not any(bb in reach and not fn.blocks[bb]["cleanup"] and st["rv"]["rv"] == "ref" and st["rv"].get("mut") and st["rv"]["pl"]["l"] == l and
+                   not [e for e in st["rv"]["pl"]["p"] if e != "*"] for bb, i, st in fn.stmts()):
+            return None
+        pushes = []
+        for bb, t in fn.calls():
+            if bb not in reach or fn.blocks[bb]["cleanup"] or not t["args"]:
+                continue
+            hit = [a for a in t["args"] if a.get("k") in ("copy", "move") and not a["pl"]["p"] and re.match(r"&('\S+ )?mut ", fn.local_ty(a["pl"]["l"])) and self.root_local(fn, a) == l]
+            if not hit:
+                continue
+            if RX_STRPUSH.search(t.get("callee") or "") and len(t["args"]) == 2 and self.root_local(fn, t["args"][0]) == l:
+                pushes.append((bb, t))
+            else:
+                return ("unknown", "string mutated by %s" % short(t.get("callee") or "<indirect>"))
+        if not pushes:
+            return ("unknown", "string borrowed mutably")
+        rpo = self.rpo(fn)
+        pushes.sort(key=lambda e: rpo.get(e[0], 1 << 30))
+        loops = fn.loop_blocks()
+        init = self.ev_def(frame, d)
+        key = (l, frame.fid)
+        rec = {"fn": fn, "frame": frame, "local": l, "init": init, "appends": [(bb, self.ev_op(frame, t["args"][1]), bb in loops) for bb, t in pushes]}
+        self.strbufs[key] = rec
+        return ("call", STRBUF, (init,) + tuple(v for _, v, _ in rec["appends"]), None, key)
 
     @staticmethod
     def _through_deref(d):
@@ -1056,6 +1100,39 @@ def expand_term(t):
     return (("hole", t, None),)
 
 
+RX_CHAIN = re.compile(r"iter::Iterator::chain$")
+
+
+def _chain_parts(x):
+    x = strip_plumb(x)
+    if x[0] == "call" and RX_CHAIN.search(x[1]) and len(x[2]) == 2:
+        return _chain_parts(x[2][0]) + _chain_parts(x[2][1])
+    return [x]
+
+
+def _is_option_term(x):
+    return x[0] in ("opt", "then") or (x[0] == "agg" and x[1].endswith("option::Option")) or (x[0] == "alt" and all(_is_option_term(y) for g, y in x[1]))
+
+
+def _rep_over_chain(body):
+    """`#(#x)*` with x = a.into_iter().chain(b).chain(c)..: the items of a, then of b, then of c.  An Option contributes its
+    payload when it is Some (as interpolating the Option itself does), a mapped iterator one body per element."""
+    if len(body) != 1 or body[0][0] != "hole" or body[0][1][0] != "item":
+        return None
+    parts = _chain_parts(body[0][1][1])
+    if len(parts) < 2:
+        return None
+    out = []
+    for p in parts:
+        if _is_option_term(p):
+            out.extend(expand_term(p))
+        elif p[0] == "itermap":
+            out.append(("rep", expand_term(p[2])))
+        else:
+            out.append(("rep", expand((("hole", mk_item(p), None),))))
+    return tuple(out)
+
+
 def expand(toks):
     out = []
     for t in toks:
@@ -1069,7 +1146,11 @@ def expand(toks):
         elif k == "grp":
             out.append(("grp", t[1], expand(t[2])))
         elif k == "rep":
-            out.append(("rep", expand(t[1])))
+            seq = _rep_over_chain(t[1])
+            if seq is not None:
+                out.extend(seq)
+            else:
+                out.append(("rep", expand(t[1])))
         elif k == "cond":
             out.append(("when", t[1], expand(t[2])))
         else:
@@ -1132,3 +1213,56 @@ def split_commas(toks):
     if cur:
         out.append(tuple(cur))
     return out
+
+
+# --------------------------------------------------------------------------- parse_semver, decided by interpretation
+def decide_parse_semver(facts, fn):
+    """Interpret `parse_semver(lit)` (rules/absint.py) over every outcome of its leaves: the string does / does not parse as a
+    semver::Version, its pre-release part is / is not empty, its build metadata is / is not empty (`x == T::EMPTY`,
+    `x != T::EMPTY`, `x.is_empty()` are the same test).  Returns [((parses, pre_empty, build_empty), outcome)] with outcome
+    "Ok(parsed)" (the very version that was parsed), "Err(syn::Error)" or a description of anything else; `parses` False has one
+    row per emptiness assignment too (they must not matter).  Raises absint.LeavesFragment when the function does anything the
+    interpreter does not model — the caller then falls back to path facts."""
+    from . import absint as A
+    a = facts.adts.get("semver::Version")
+    names = [f["name"] for v in a["variants"] for f in v.get("fields", [])] if a else []
+    if "pre" not in names or "build" not in names:
+        raise A.LeavesFragment("semver::Version's fields are not in the facts")
+
+    class It(A.Interp):
+        def operand(self, frame, op):
+            if op.get("k") == "const" and not op.get("fn") and str(op.get("path") or "").endswith("::EMPTY") and re.search(r"semver::(Prerelease|BuildMetadata)", str(op.get("path")) + " " + str(op.get("ty"))):
+                return A.V_sym("EMPTY")
+            return A.Interp.operand(self, frame, op)
+
+    parsed = lambda: A.V_struct("semver::Version", [A.V_sym(n) if n in ("pre", "build") else A.V_opaque(n) for n in names])
+    want_ok = ("enum", "Ok", (A.strip(parsed()),))
+    rows = []
+    for pre_empty in (True, False):
+        for build_empty in (True, False):
+            order = {"EMPTY": 0, "pre": 0 if pre_empty else 1, "build": 0 if build_empty else 1}
+
+            def run(ch, order=order):
+                def parse(it, argv, t):
+                    return [A.V_err(A.V_opaque("semver::Error")), A.V_ok(parsed())][it.choose(2)]
+
+                def is_empty(it, argv, t):
+                    return A.V_bool(it.sym_rank(argv[0])[0] == 0)
+                summ = {"syn::LitStr::value": lambda it, argv, t: A.V_opaque("text"),
+                        "core::str::<impl str>::parse": parse, "std::str::<impl str>::parse": parse, "std::str::FromStr::from_str": parse,
+                        "semver::Prerelease::is_empty": is_empty, "semver::BuildMetadata::is_empty": is_empty,
+                        "syn::Error::new_spanned": lambda it, argv, t: A.V_opaque("syn::Error"), "syn::Error::new": lambda it, argv, t: A.V_opaque("syn::Error")}
+                it = It(facts, order, summaries=summ, choices=ch,
+                        opaque_callees=[r"^core::fmt::", r"^std::fmt::", r"^alloc::fmt::", r"^std::string::ToString::to_string$", r"^std::convert::(From::from|Into::into)$",
+                                        r"^std::borrow::ToOwned::to_owned$", r"^syn::spanned::Spanned::span$", r"^syn::LitStr::span$", r"^std::string::String::"])
+                r = A.strip(it.call_fn(fn, [A.V_ref(A.Cell(A.V_opaque("literal")))]))
+                bad = [c for c in it.cmp_log if c[0].lower() not in ("eq", "ne") or "EMPTY" not in c[1:]]
+                if bad:
+                    raise A.LeavesFragment("pre-release / build metadata compared otherwise than with EMPTY: %s" % (bad[:2],))
+                out = "Ok(parsed)" if r == want_ok else ("Err(syn::Error)" if r == ("enum", "Err", (("opaque", "syn::Error"),)) else "other: %s" % (r,))
+                return it, (tuple(it.taken), out)
+            for taken, out in A.explore(run):
+                if len(taken) != 1:
+                    raise A.LeavesFragment("%d nondeterministic choices on one path (expected exactly the one parse)" % len(taken))
+                rows.append(((bool(taken[0]), pre_empty, build_empty), out))
+    return rows
